@@ -115,6 +115,33 @@ type c09Case struct {
 	Hooks bool     // force the order with hooks (late completers are held until the winner was taken)
 }
 
+// c09Respell writes host:port in another textual form that resolves to the same address.
+func c09Respell(c string) string {
+	host, port, err := net.SplitHostPort(c)
+	if err != nil {
+		return ""
+	}
+	ip := net.ParseIP(host)
+	if ip == nil {
+		return ""
+	}
+	if v4 := ip.To4(); v4 != nil {
+		return "[::ffff:" + v4.String() + "]:" + port
+	}
+	var parts []string
+	for i := 0; i < 16; i += 2 {
+		parts = append(parts, fmt.Sprintf("%x", uint16(ip[i])<<8|uint16(ip[i+1])))
+	}
+	alt := strings.Join(parts, ":")
+	if alt == host {
+		alt = strings.ToUpper(alt)
+		if alt == host {
+			return ""
+		}
+	}
+	return "[" + alt + "]:" + port
+}
+
 func TestVerifC09Dial(t *testing.T) {
 	rec := verifkit.NewRecorder("C09", "dial")
 	defer rec.Flush()
@@ -139,7 +166,7 @@ func TestVerifC09Dial(t *testing.T) {
 			cands = append(cands, c)
 			reach[c] = true
 		}
-		extras := rapid.SliceOfN(rapid.SampledFrom([]string{"closed-port", "blackhole", "duplicate", "turn-prefixed", "malformed", "malformed2"}), 0, 3).Draw(rt, "extras")
+		extras := rapid.SliceOfN(rapid.SampledFrom([]string{"closed-port", "blackhole", "duplicate", "turn-prefixed", "malformed", "malformed2", "respelled", "respelled"}), 0, 3).Draw(rt, "extras")
 		for _, e := range extras {
 			switch e {
 			case "closed-port":
@@ -150,6 +177,13 @@ func TestVerifC09Dial(t *testing.T) {
 				cands = append(cands, cands[0])
 			case "turn-prefixed":
 				cands = append(cands, "turn:"+cands[0])
+			case "respelled":
+				// the same address written differently: another string, so it is dialed as well,
+				// and it must lose (or win) the race like any other candidate
+				if alt := c09Respell(cands[0]); alt != "" {
+					cands = append(cands, alt)
+					reach[alt] = true
+				}
 			case "malformed":
 				cands = append(cands, "not an address")
 			default:
